@@ -2383,7 +2383,7 @@ class Circuit(AbstractCircuit):
         op_index = 0
         while op_index < len(flat_ops):
             op = flat_ops[op_index]
-            while i < end and self._moments[i].operates_on(op.qubits):
+            while i < end and not self._can_add_op_at(i, op):
                 i += 1
             if i >= end:
                 break
